@@ -54,10 +54,6 @@ Qed.
 Lemma Forall_app_iff : forall {A} (P : A -> Prop) l1 l2, Forall P (l1 ++ l2) <-> Forall P l1 /\ Forall P l2.
 Proof. intros. apply Forall_app. Qed.
 
-Section WithEnv.
-Variable bug : bool.
-Variable env : Z -> list action.
-
 Lemma timer_insert_forall : forall (P : watch -> Prop) l w, Forall P l -> P w -> Forall P (timer_insert l w).
 Proof.
   induction l as [|h t IH]; intros w Hl Hw; cbn [timer_insert].
@@ -71,66 +67,34 @@ Proof.
   apply Forall_app. split; [assumption|constructor; [assumption|constructor]].
 Qed.
 
-(* notify_unbind only adds an UNBIND event *)
-Lemma notify_fields : forall s w,
-  timers (notify_unbind s w) = timers s /\ run_timers (notify_unbind s w) = run_timers s /\
-  others (notify_unbind s w) = others s /\ now (notify_unbind s w) = now s /\
-  next_id (notify_unbind s w) = next_id s /\ iter (notify_unbind s w) = iter s.
-Proof. intros s w. unfold notify_unbind. destruct (w_unbind w); repeat split; reflexivity. Qed.
-
-Lemma notify_log_ok : forall s w, log_ok (log s) -> log_ok (log (notify_unbind s w)).
-Proof.
-  intros s w H. unfold notify_unbind. destruct (w_unbind w); [|exact H].
-  apply log_ok_emit_nofire; [exact H|reflexivity].
-Qed.
-
 Ltac inv_split H := destruct H as [Htk Hrt Hot Hlog].
 
-Lemma Inv_cancel : forall s id, Inv s -> Inv (watch_cancel s id).
+Section WithEnv.
+Variable bug : bool.
+Variable env : Z -> list action.
+Variable uenv : Z -> list action.
+
+(* ---- the registering calls *)
+Lemma reg_fields : forall s a,
+  run_timers (do_reg bug s a) = run_timers s /\ run_laters (do_reg bug s a) = run_laters s /\
+  now (do_reg bug s a) = now s /\ iter (do_reg bug s a) = iter s /\ log (do_reg bug s a) = log s.
 Proof.
-  intros s id H. inv_split H. unfold watch_cancel, others in *.
-  rewrite !Forall_app_iff in Hot. destruct Hot as [Hla [Hrl [Hio [Hsi Hpr]]]].
-  destruct (find_remove id (ios s)) as [[w l]|] eqn:E1.
-  { destruct (find_remove_forall _ _ _ _ _ E1 Hio) as [_ Hl].
-    destruct (notify_fields (set_ios s l) w) as [F1 [F2 [F3 [F4 _]]]].
-    constructor; [rewrite F1; exact Htk|rewrite F2, F4; exact Hrt| |apply notify_log_ok; exact Hlog].
-    rewrite F3. unfold others. cbn [laters run_laters ios sigs procs set_ios]. rewrite !Forall_app_iff. auto. }
-  destruct (find_remove id (timers s)) as [[w l]|] eqn:E2.
-  { destruct (find_remove_forall _ _ _ _ _ E2 Htk) as [_ Hl].
-    destruct (notify_fields (set_timers s l) w) as [F1 [F2 [F3 [F4 _]]]].
-    constructor; [rewrite F1; exact Hl|rewrite F2, F4; exact Hrt| |apply notify_log_ok; exact Hlog].
-    rewrite F3. unfold others. cbn [laters run_laters ios sigs procs set_timers]. rewrite !Forall_app_iff. auto. }
-  destruct (find_remove id (run_timers s)) as [[w l]|] eqn:E3.
-  { destruct (find_remove_forall _ _ _ _ _ E3 Hrt) as [_ Hl].
-    destruct (notify_fields (set_run_timers s l) w) as [F1 [F2 [F3 [F4 _]]]].
-    constructor; [rewrite F1; exact Htk|rewrite F2, F4; exact Hl| |apply notify_log_ok; exact Hlog].
-    rewrite F3. unfold others. cbn [laters run_laters ios sigs procs set_run_timers]. rewrite !Forall_app_iff. auto. }
-  destruct (find_remove id (laters s)) as [[w l]|] eqn:E4.
-  { destruct (find_remove_forall _ _ _ _ _ E4 Hla) as [_ Hl].
-    destruct (notify_fields (set_laters s l) w) as [F1 [F2 [F3 [F4 _]]]].
-    constructor; [rewrite F1; exact Htk|rewrite F2, F4; exact Hrt| |apply notify_log_ok; exact Hlog].
-    rewrite F3. unfold others. cbn [laters run_laters ios sigs procs set_laters]. rewrite !Forall_app_iff. auto. }
-  destruct (find_remove id (run_laters s)) as [[w l]|] eqn:E5.
-  { destruct (find_remove_forall _ _ _ _ _ E5 Hrl) as [_ Hl].
-    destruct (notify_fields (set_run_laters s l) w) as [F1 [F2 [F3 [F4 _]]]].
-    constructor; [rewrite F1; exact Htk|rewrite F2, F4; exact Hrt| |apply notify_log_ok; exact Hlog].
-    rewrite F3. unfold others. cbn [laters run_laters ios sigs procs set_run_laters]. rewrite !Forall_app_iff. auto. }
-  destruct (find_remove id (sigs s)) as [[w l]|] eqn:E6.
-  { destruct (find_remove_forall _ _ _ _ _ E6 Hsi) as [_ Hl].
-    destruct (notify_fields (set_sigs s l) w) as [F1 [F2 [F3 [F4 _]]]].
-    constructor; [rewrite F1; exact Htk|rewrite F2, F4; exact Hrt| |apply notify_log_ok; exact Hlog].
-    rewrite F3. unfold others. cbn [laters run_laters ios sigs procs set_sigs]. rewrite !Forall_app_iff. auto. }
-  destruct (find_remove id (procs s)) as [[w l]|] eqn:E7.
-  { destruct (find_remove_forall _ _ _ _ _ E7 Hpr) as [_ Hl].
-    destruct (notify_fields (set_procs s l) w) as [F1 [F2 [F3 [F4 _]]]].
-    constructor; [rewrite F1; exact Htk|rewrite F2, F4; exact Hrt| |apply notify_log_ok; exact Hlog].
-    rewrite F3. unfold others. cbn [laters run_laters ios sigs procs set_procs]. rewrite !Forall_app_iff. auto. }
-  constructor; try assumption. unfold others. rewrite !Forall_app_iff. auto.
+  intros s a. destruct a as [d fl cb|fl cb|k x fl cb|id|]; cbn [do_reg]; try (repeat split; reflexivity).
+  destruct k; repeat split; reflexivity.
 Qed.
 
-Lemma Inv_action : forall s a, Inv s -> Inv (do_action bug s a).
+Lemma regs_fields : forall l s,
+  run_timers (do_regs bug s l) = run_timers s /\ run_laters (do_regs bug s l) = run_laters s /\
+  now (do_regs bug s l) = now s /\ iter (do_regs bug s l) = iter s /\ log (do_regs bug s l) = log s.
 Proof.
-  intros s a H. destruct a as [d fl cb|fl cb|k x fl cb|id|]; cbn [do_action]; try assumption.
+  induction l as [|a l IH]; intros s; [repeat split; reflexivity|].
+  unfold do_regs in *. cbn [fold_left]. destruct (IH (do_reg bug s a)) as [A1 [A2 [A3 [A4 A5]]]].
+  destruct (reg_fields s a) as [B1 [B2 [B3 [B4 B5]]]]. repeat split; congruence.
+Qed.
+
+Lemma Inv_reg : forall s a, Inv s -> Inv (do_reg bug s a).
+Proof.
+  intros s a H. destruct a as [d fl cb|fl cb|k x fl cb|id|]; cbn [do_reg]; try assumption.
   - inv_split H. constructor; try assumption.
     cbn [timers set_next set_timers]. apply timer_insert_forall; [exact Htk|reflexivity].
   - inv_split H. constructor; try assumption.
@@ -141,83 +105,145 @@ Proof.
       unfold others in *; cbn [laters run_laters ios sigs procs set_next set_ios set_sigs set_procs];
       rewrite !Forall_app_iff in *; destruct Hot as [Hla [Hrl [Hio [Hsi Hpr]]]];
       repeat split; try assumption; apply insert_watch_forall; try assumption; cbn; discriminate.
-  - apply Inv_cancel. exact H.
 Qed.
 
-Lemma Inv_actions : forall l s, Inv s -> Inv (do_actions bug s l).
+Lemma Inv_regs : forall l s, Inv s -> Inv (do_regs bug s l).
+Proof.
+  induction l as [|a l IH]; intros s H; [exact H|].
+  unfold do_regs in *. cbn [fold_left]. apply IH. apply Inv_reg. exact H.
+Qed.
+
+(* ---- the UNBIND notification *)
+Lemma notify_fields : forall s w,
+  run_timers (notify_unbind bug uenv s w) = run_timers s /\ run_laters (notify_unbind bug uenv s w) = run_laters s /\
+  now (notify_unbind bug uenv s w) = now s /\ iter (notify_unbind bug uenv s w) = iter s.
+Proof.
+  intros s w. unfold notify_unbind. destruct (w_unbind w); [|repeat split; reflexivity].
+  destruct (regs_fields (uenv (w_cb w)) (emit s w EV_UNBIND)) as [A1 [A2 [A3 [A4 _]]]]. repeat split; assumption.
+Qed.
+
+Lemma Inv_notify : forall s w, Inv s -> Inv (notify_unbind bug uenv s w).
+Proof.
+  intros s w H. unfold notify_unbind. destruct (w_unbind w); [|exact H].
+  apply Inv_regs. inv_split H. constructor; try assumption.
+  apply log_ok_emit_nofire; [exact Hlog|reflexivity].
+Qed.
+
+Lemma Inv_cancel : forall s id, Inv s -> Inv (watch_cancel bug uenv s id).
+Proof.
+  intros s id H. inv_split H. unfold watch_cancel, others in *.
+  rewrite !Forall_app_iff in Hot. destruct Hot as [Hla [Hrl [Hio [Hsi Hpr]]]].
+  destruct (find_remove id (ios s)) as [[w l]|] eqn:E1.
+  { destruct (find_remove_forall _ _ _ _ _ E1 Hio) as [_ Hl]. apply Inv_notify.
+    constructor; try assumption. unfold others. cbn [laters run_laters ios sigs procs set_ios]. rewrite !Forall_app_iff. auto. }
+  destruct (find_remove id (timers s)) as [[w l]|] eqn:E2.
+  { destruct (find_remove_forall _ _ _ _ _ E2 Htk) as [_ Hl]. apply Inv_notify.
+    constructor; try assumption. unfold others. cbn [laters run_laters ios sigs procs set_timers]. rewrite !Forall_app_iff. auto. }
+  destruct (find_remove id (run_timers s)) as [[w l]|] eqn:E3.
+  { destruct (find_remove_forall _ _ _ _ _ E3 Hrt) as [_ Hl]. apply Inv_notify.
+    constructor; try assumption. unfold others. cbn [laters run_laters ios sigs procs set_run_timers]. rewrite !Forall_app_iff. auto. }
+  destruct (find_remove id (laters s)) as [[w l]|] eqn:E4.
+  { destruct (find_remove_forall _ _ _ _ _ E4 Hla) as [_ Hl]. apply Inv_notify.
+    constructor; try assumption. unfold others. cbn [laters run_laters ios sigs procs set_laters]. rewrite !Forall_app_iff. auto. }
+  destruct (find_remove id (run_laters s)) as [[w l]|] eqn:E5.
+  { destruct (find_remove_forall _ _ _ _ _ E5 Hrl) as [_ Hl]. apply Inv_notify.
+    constructor; try assumption. unfold others. cbn [laters run_laters ios sigs procs set_run_laters]. rewrite !Forall_app_iff. auto. }
+  destruct (find_remove id (sigs s)) as [[w l]|] eqn:E6.
+  { destruct (find_remove_forall _ _ _ _ _ E6 Hsi) as [_ Hl]. apply Inv_notify.
+    constructor; try assumption. unfold others. cbn [laters run_laters ios sigs procs set_sigs]. rewrite !Forall_app_iff. auto. }
+  destruct (find_remove id (procs s)) as [[w l]|] eqn:E7.
+  { destruct (find_remove_forall _ _ _ _ _ E7 Hpr) as [_ Hl]. apply Inv_notify.
+    constructor; try assumption. unfold others. cbn [laters run_laters ios sigs procs set_procs]. rewrite !Forall_app_iff. auto. }
+  constructor; try assumption. unfold others. rewrite !Forall_app_iff. auto.
+Qed.
+
+Lemma Inv_action : forall s a, Inv s -> Inv (do_action bug uenv s a).
+Proof.
+  intros s a H. destruct a as [d fl cb|fl cb|k x fl cb|id|];
+    try (change (Inv (do_reg bug s (ATimer d fl cb))) || change (Inv (do_reg bug s (ALater fl cb))) ||
+         change (Inv (do_reg bug s (AWatch k x fl cb))) || change (Inv (do_reg bug s ANop)); apply Inv_reg; exact H).
+  apply Inv_cancel. exact H.
+Qed.
+
+Lemma Inv_actions : forall l s, Inv s -> Inv (do_actions bug uenv s l).
 Proof.
   induction l as [|a l IH]; intros s H; [exact H|].
   unfold do_actions in *. cbn [fold_left]. apply IH. apply Inv_action. exact H.
 Qed.
 
 (* actions keep the clock and the iteration number *)
-Lemma cancel_now : forall s id, now (watch_cancel s id) = now s /\ iter (watch_cancel s id) = iter s.
+Lemma cancel_now : forall s id, now (watch_cancel bug uenv s id) = now s /\ iter (watch_cancel bug uenv s id) = iter s.
 Proof.
   intros s id. unfold watch_cancel.
   repeat match goal with
   | |- context [match find_remove ?i ?l with _ => _ end] => destruct (find_remove i l) as [[? ?]|]
   end;
-  try (match goal with |- context [notify_unbind ?s0 ?w] => destruct (notify_fields s0 w) as [_ [_ [_ [F4 [_ F6]]]]]; rewrite F4, F6 end);
+  try (match goal with |- context [notify_unbind bug uenv ?s0 ?w] => destruct (notify_fields s0 w) as [_ [_ [F4 F6]]]; rewrite F4, F6 end);
   split; reflexivity.
 Qed.
 
-Lemma action_now : forall s a, now (do_action bug s a) = now s /\ iter (do_action bug s a) = iter s.
+Lemma action_now : forall s a, now (do_action bug uenv s a) = now s /\ iter (do_action bug uenv s a) = iter s.
 Proof.
   intros s a. destruct a as [d fl cb|fl cb|k x fl cb|id|]; cbn [do_action]; try (split; reflexivity).
-  - destruct k; split; reflexivity.
+  - destruct (reg_fields s (AWatch k x fl cb)) as [_ [_ [A3 [A4 _]]]]. split; assumption.
   - apply cancel_now.
 Qed.
 
-Lemma actions_now : forall l s, now (do_actions bug s l) = now s /\ iter (do_actions bug s l) = iter s.
+Lemma actions_now : forall l s, now (do_actions bug uenv s l) = now s /\ iter (do_actions bug uenv s l) = iter s.
 Proof.
   induction l as [|a l IH]; intros s; [split; reflexivity|].
-  unfold do_actions in *. cbn [fold_left]. destruct (IH (do_action bug s a)) as [H1 H2].
+  unfold do_actions in *. cbn [fold_left]. destruct (IH (do_action bug uenv s a)) as [H1 H2].
   destruct (action_now s a) as [H3 H4]. split; congruence.
 Qed.
 
 (* the running queues only shrink while actions are performed *)
 Lemma cancel_run_len : forall s id,
-  (length (run_timers (watch_cancel s id)) <= length (run_timers s))%nat /\
-  (length (run_laters (watch_cancel s id)) <= length (run_laters s))%nat.
+  (length (run_timers (watch_cancel bug uenv s id)) <= length (run_timers s))%nat /\
+  (length (run_laters (watch_cancel bug uenv s id)) <= length (run_laters s))%nat.
 Proof.
   intros s id. unfold watch_cancel.
-  destruct (find_remove id (ios s)) as [[w l]|]; [unfold notify_unbind; destruct (w_unbind w); split; cbn; lia|].
-  destruct (find_remove id (timers s)) as [[w l]|]; [unfold notify_unbind; destruct (w_unbind w); split; cbn; lia|].
+  destruct (find_remove id (ios s)) as [[w l]|];
+    [destruct (notify_fields (set_ios s l) w) as [F1 [F2 _]]; rewrite F1, F2; split; cbn; lia|].
+  destruct (find_remove id (timers s)) as [[w l]|];
+    [destruct (notify_fields (set_timers s l) w) as [F1 [F2 _]]; rewrite F1, F2; split; cbn; lia|].
   destruct (find_remove id (run_timers s)) as [[w l]|] eqn:E3.
   { apply find_remove_some in E3. destruct E3 as [_ [_ [_ E3]]].
-    unfold notify_unbind; destruct (w_unbind w); split; cbn; lia. }
-  destruct (find_remove id (laters s)) as [[w l]|]; [unfold notify_unbind; destruct (w_unbind w); split; cbn; lia|].
+    destruct (notify_fields (set_run_timers s l) w) as [F1 [F2 _]]; rewrite F1, F2; split; cbn; lia. }
+  destruct (find_remove id (laters s)) as [[w l]|];
+    [destruct (notify_fields (set_laters s l) w) as [F1 [F2 _]]; rewrite F1, F2; split; cbn; lia|].
   destruct (find_remove id (run_laters s)) as [[w l]|] eqn:E5.
   { apply find_remove_some in E5. destruct E5 as [_ [_ [_ E5]]].
-    unfold notify_unbind; destruct (w_unbind w); split; cbn; lia. }
-  destruct (find_remove id (sigs s)) as [[w l]|]; [unfold notify_unbind; destruct (w_unbind w); split; cbn; lia|].
-  destruct (find_remove id (procs s)) as [[w l]|]; [unfold notify_unbind; destruct (w_unbind w); split; cbn; lia|].
+    destruct (notify_fields (set_run_laters s l) w) as [F1 [F2 _]]; rewrite F1, F2; split; cbn; lia. }
+  destruct (find_remove id (sigs s)) as [[w l]|];
+    [destruct (notify_fields (set_sigs s l) w) as [F1 [F2 _]]; rewrite F1, F2; split; cbn; lia|].
+  destruct (find_remove id (procs s)) as [[w l]|];
+    [destruct (notify_fields (set_procs s l) w) as [F1 [F2 _]]; rewrite F1, F2; split; cbn; lia|].
   split; lia.
 Qed.
 
 Lemma action_run_len : forall s a,
-  (length (run_timers (do_action bug s a)) <= length (run_timers s))%nat /\
-  (length (run_laters (do_action bug s a)) <= length (run_laters s))%nat.
+  (length (run_timers (do_action bug uenv s a)) <= length (run_timers s))%nat /\
+  (length (run_laters (do_action bug uenv s a)) <= length (run_laters s))%nat.
 Proof.
   intros s a. destruct a as [d fl cb|fl cb|k x fl cb|id|]; cbn [do_action]; try (split; cbn; lia).
-  - destruct k; split; cbn; lia.
+  - destruct (reg_fields s (AWatch k x fl cb)) as [A1 [A2 _]]. rewrite A1, A2. split; lia.
   - apply cancel_run_len.
 Qed.
 
 Lemma actions_run_len : forall l s,
-  (length (run_timers (do_actions bug s l)) <= length (run_timers s))%nat /\
-  (length (run_laters (do_actions bug s l)) <= length (run_laters s))%nat.
+  (length (run_timers (do_actions bug uenv s l)) <= length (run_timers s))%nat /\
+  (length (run_laters (do_actions bug uenv s l)) <= length (run_laters s))%nat.
 Proof.
   induction l as [|a l IH]; intros s; [split; cbn; lia|].
-  unfold do_actions in *. cbn [fold_left]. destruct (IH (do_action bug s a)) as [H1 H2].
+  unfold do_actions in *. cbn [fold_left]. destruct (IH (do_action bug uenv s a)) as [H1 H2].
   destruct (action_run_len s a) as [H3 H4]. split; lia.
 Qed.
 
 (* the two loops preserve the invariant and end with their queue empty *)
 Lemma Inv_run_timers_loop : forall n s, Inv s -> (length (run_timers s) <= n)%nat ->
-  Inv (run_timers_loop bug env n s) /\ run_timers (run_timers_loop bug env n s) = [] /\
-  (length (run_laters (run_timers_loop bug env n s)) <= length (run_laters s))%nat /\
-  now (run_timers_loop bug env n s) = now s /\ iter (run_timers_loop bug env n s) = iter s.
+  Inv (run_timers_loop bug env uenv n s) /\ run_timers (run_timers_loop bug env uenv n s) = [] /\
+  (length (run_laters (run_timers_loop bug env uenv n s)) <= length (run_laters s))%nat /\
+  now (run_timers_loop bug env uenv n s) = now s /\ iter (run_timers_loop bug env uenv n s) = iter s.
 Proof.
   induction n as [|n IH]; intros s H Hn.
   - cbn [run_timers_loop]. destruct (run_timers s); [auto 6|cbn in Hn; lia].
@@ -231,7 +257,7 @@ Proof.
     pose proof (Inv_actions (env (w_cb w)) s2 H2) as H3.
     destruct (actions_run_len (env (w_cb w)) s2) as [L1 L2].
     destruct (actions_now (env (w_cb w)) s2) as [N1 N2].
-    assert (Hlen : (length (run_timers (do_actions bug s2 (env (w_cb w)))) <= n)%nat).
+    assert (Hlen : (length (run_timers (do_actions bug uenv s2 (env (w_cb w)))) <= n)%nat).
     { cbn [s2 run_timers emit set_log set_run_timers] in L1. try rewrite Er in Hn. cbn in Hn.
       eapply Nat.le_trans; [exact L1|]. apply le_S_n. exact Hn. }
     destruct (IH _ H3 Hlen) as [I1 [I2 [I3 [I4 I5]]]].
@@ -242,9 +268,9 @@ Proof.
 Qed.
 
 Lemma Inv_run_laters_loop : forall n s, Inv s -> (length (run_laters s) <= n)%nat ->
-  Inv (run_laters_loop bug env n s) /\ run_laters (run_laters_loop bug env n s) = [] /\
-  (length (run_timers (run_laters_loop bug env n s)) <= length (run_timers s))%nat /\
-  now (run_laters_loop bug env n s) = now s /\ iter (run_laters_loop bug env n s) = iter s.
+  Inv (run_laters_loop bug env uenv n s) /\ run_laters (run_laters_loop bug env uenv n s) = [] /\
+  (length (run_timers (run_laters_loop bug env uenv n s)) <= length (run_timers s))%nat /\
+  now (run_laters_loop bug env uenv n s) = now s /\ iter (run_laters_loop bug env uenv n s) = iter s.
 Proof.
   induction n as [|n IH]; intros s H Hn.
   - cbn [run_laters_loop]. destruct (run_laters s); [auto 6|cbn in Hn; lia].
@@ -261,7 +287,7 @@ Proof.
     pose proof (Inv_actions (env (w_cb w)) s2 H2) as H3.
     destruct (actions_run_len (env (w_cb w)) s2) as [L1 L2].
     destruct (actions_now (env (w_cb w)) s2) as [N1 N2].
-    assert (Hlen : (length (run_laters (do_actions bug s2 (env (w_cb w)))) <= n)%nat).
+    assert (Hlen : (length (run_laters (do_actions bug uenv s2 (env (w_cb w)))) <= n)%nat).
     { cbn [s2 run_laters emit set_log set_run_laters] in L2. try rewrite Er in Hn. cbn in Hn.
       eapply Nat.le_trans; [exact L2|]. apply le_S_n. exact Hn. }
     destruct (IH _ H3 Hlen) as [I1 [I2 [I3 [I4 I5]]]].
@@ -286,7 +312,7 @@ Qed.
 (* between operations the running queues are empty *)
 Definition Quiet (s : st) : Prop := Inv s /\ run_timers s = [] /\ run_laters s = [].
 
-Lemma Quiet_invoke_timers : forall s, Quiet s -> Quiet (invoke_timers bug env s).
+Lemma Quiet_invoke_timers : forall s, Quiet s -> Quiet (invoke_timers bug env uenv s).
 Proof.
   intros s [H [Hrt0 Hrl0]]. unfold invoke_timers.
   set (s1 := set_laters (set_run_laters s (run_laters s ++ laters s)) []).
@@ -309,13 +335,13 @@ Proof.
     cbn [run_timers set_timers set_run_timers now]. rewrite Hrt1. cbn [app].
     rewrite Forall_forall in *. intros w Hw. split; [apply Hd; exact Hw|apply Hdue; exact Hw]. }
   destruct (Inv_run_timers_loop (length (run_timers s2)) s2 H2 (le_n _)) as [I1 [I2 [I3 [I4 I5]]]].
-  set (s3 := run_timers_loop bug env (length (run_timers s2)) s2) in *.
+  set (s3 := run_timers_loop bug env uenv (length (run_timers s2)) s2) in *.
   destruct (Inv_run_laters_loop (length (run_laters s3)) s3 I1 (le_n _)) as [J1 [J2 [J3 [J4 J5]]]].
   split; [exact J1|]. split; [|exact J2].
-  rewrite I2 in J3. cbn in J3. destruct (run_timers (run_laters_loop bug env (length (run_laters s3)) s3)); [reflexivity|cbn in J3; lia].
+  rewrite I2 in J3. cbn in J3. destruct (run_timers (run_laters_loop bug env uenv (length (run_laters s3)) s3)); [reflexivity|cbn in J3; lia].
 Qed.
 
-Lemma Quiet_tick : forall sleep dt s, Quiet s -> Quiet (tick bug env sleep dt s).
+Lemma Quiet_tick : forall sleep dt s, Quiet s -> Quiet (tick bug env uenv sleep dt s).
 Proof.
   intros sleep dt s [H [Hq1 Hq2]]. unfold tick. apply Quiet_invoke_timers.
   set (s1 := set_iter (set_now s (now s + dt)) (iter s + 1)).
@@ -332,12 +358,12 @@ Proof.
   cbn [run_timers set_now]. rewrite Hrt2. constructor.
 Qed.
 
-Lemma Quiet_action : forall s a, Quiet s -> Quiet (do_action bug s a).
+Lemma Quiet_action : forall s a, Quiet s -> Quiet (do_action bug uenv s a).
 Proof.
   intros s a [H [Hrt Hrl]]. split; [apply Inv_action; exact H|].
   destruct (action_run_len s a) as [L1 L2]. rewrite Hrt in L1. rewrite Hrl in L2. cbn in L1, L2.
-  split; [destruct (run_timers (do_action bug s a)); [reflexivity|cbn in L1; lia]
-         |destruct (run_laters (do_action bug s a)); [reflexivity|cbn in L2; lia]].
+  split; [destruct (run_timers (do_action bug uenv s a)); [reflexivity|cbn in L1; lia]
+         |destruct (run_laters (do_action bug uenv s a)); [reflexivity|cbn in L2; lia]].
 Qed.
 
 Lemma Quiet_st0 : Quiet st0.
@@ -345,10 +371,10 @@ Proof.
   split; [|split; reflexivity]. constructor; try constructor. intros e [].
 Qed.
 
-Lemma Quiet_run_ops : forall ops, Quiet (run_ops bug env ops).
+Lemma Quiet_run_ops : forall ops, Quiet (run_ops bug env uenv ops).
 Proof.
   intros ops. unfold run_ops.
-  assert (G : forall ops s, Quiet s -> Quiet (fold_left (do_op bug env) ops s)).
+  assert (G : forall ops s, Quiet s -> Quiet (fold_left (do_op bug env uenv) ops s)).
   { induction ops0 as [|o r IH]; intros s Q; [exact Q|].
     cbn [fold_left]. apply IH. destruct o as [a|dt|]; cbn [do_op];
       [apply Quiet_action|apply Quiet_tick|apply Quiet_tick]; exact Q. }
@@ -389,7 +415,7 @@ Qed.
 
 (* C17_never_early: no timer callback is invoked (FIRE) before its deadline *)
 Theorem never_early : forall ops e,
-  In (OEv e) (run bug env ops) -> e_kind e = KTimer -> Z.testbit (e_flags e) 0 = true -> e_x e <= e_now e.
+  In (OEv e) (run bug env uenv ops) -> e_kind e = KTimer -> Z.testbit (e_flags e) 0 = true -> e_x e <= e_now e.
 Proof.
   intros ops e He Hk Hb. unfold run in He. apply in_rev in He.
   destruct (Quiet_run_ops ops) as [H _]. inv_split H.
@@ -433,36 +459,38 @@ Definition Below (s : st) : Prop := Forall (fun w => w_id w < next_id s) (all_li
 Section Iteration.
 Variable bug : bool.
 Variable env : Z -> list action.
+Variable uenv : Z -> list action.
 
 (* an event of a callback's own API calls is never a FIRE: only UNBIND notifications *)
 Definition nofire (e : event) : Prop := Z.testbit (e_flags e) 0 = false.
 
-Lemma ext_notify : forall s w, ext nofire s (notify_unbind s w).
+Lemma ext_notify : forall s w, ext nofire s (notify_unbind bug uenv s w).
 Proof.
   intros s w. unfold notify_unbind. destruct (w_unbind w); [|apply ext_refl].
-  apply ext_emit. reflexivity.
+  apply (ext_trans _ s (emit s w EV_UNBIND)); [apply ext_emit; reflexivity|].
+  apply ext_same_log. destruct (regs_fields bug (uenv (w_cb w)) (emit s w EV_UNBIND)) as [_ [_ [_ [_ L]]]]. exact L.
 Qed.
 
-Lemma ext_cancel : forall s id, ext nofire s (watch_cancel s id).
+Lemma ext_cancel : forall s id, ext nofire s (watch_cancel bug uenv s id).
 Proof.
   intros s id. unfold watch_cancel.
   repeat match goal with
   | |- context [match find_remove ?i ?l with _ => _ end] => destruct (find_remove i l) as [[? ?]|]
   end;
   try apply ext_refl;
-  match goal with |- ext _ _ (notify_unbind ?s0 ?w) =>
+  match goal with |- ext _ _ (notify_unbind bug uenv ?s0 ?w) =>
     eapply ext_trans; [|apply (ext_notify s0 w)]; apply ext_same_log; reflexivity end.
 Qed.
 
-Lemma ext_action : forall s a, ext nofire s (do_action bug s a).
+Lemma ext_action : forall s a, ext nofire s (do_action bug uenv s a).
 Proof.
   intros s a. destruct a as [d fl cb|fl cb|k x fl cb|id|]; cbn [do_action];
     try (apply ext_same_log; reflexivity).
-  - destruct k; apply ext_same_log; reflexivity.
+  - apply ext_same_log. destruct (reg_fields bug s (AWatch k x fl cb)) as [_ [_ [_ [_ L]]]]. exact L.
   - apply ext_cancel.
 Qed.
 
-Lemma ext_actions : forall l s, ext nofire s (do_actions bug s l).
+Lemma ext_actions : forall l s, ext nofire s (do_actions bug uenv s l).
 Proof.
   induction l as [|a l IH]; intros s; [apply ext_refl|].
   unfold do_actions in *. cbn [fold_left]. eapply ext_trans; [apply ext_action|apply IH].
@@ -474,33 +502,40 @@ Proof. intros P Q s s' H [nw [L F]]. exists nw. split; [exact L|]. intros e He. 
 (* the running queues only ever lose elements *)
 Lemma cancel_run_sub : forall (P : watch -> Prop) s id,
   Forall P (run_timers s) -> Forall P (run_laters s) ->
-  Forall P (run_timers (watch_cancel s id)) /\ Forall P (run_laters (watch_cancel s id)).
+  Forall P (run_timers (watch_cancel bug uenv s id)) /\ Forall P (run_laters (watch_cancel bug uenv s id)).
 Proof.
   intros P s id Ht Hl. unfold watch_cancel.
-  destruct (find_remove id (ios s)) as [[w l]|]; [unfold notify_unbind; destruct (w_unbind w); split; assumption|].
-  destruct (find_remove id (timers s)) as [[w l]|]; [unfold notify_unbind; destruct (w_unbind w); split; assumption|].
+  destruct (find_remove id (ios s)) as [[w l]|];
+    [destruct (notify_fields bug uenv (set_ios s l) w) as [F1 [F2 _]]; rewrite F1, F2; split; assumption|].
+  destruct (find_remove id (timers s)) as [[w l]|];
+    [destruct (notify_fields bug uenv (set_timers s l) w) as [F1 [F2 _]]; rewrite F1, F2; split; assumption|].
   destruct (find_remove id (run_timers s)) as [[w l]|] eqn:E3.
-  { destruct (find_remove_forall P _ _ _ _ E3 Ht) as [_ Hl']. unfold notify_unbind; destruct (w_unbind w); split; assumption. }
-  destruct (find_remove id (laters s)) as [[w l]|]; [unfold notify_unbind; destruct (w_unbind w); split; assumption|].
+  { destruct (find_remove_forall P _ _ _ _ E3 Ht) as [_ Hl'].
+    destruct (notify_fields bug uenv (set_run_timers s l) w) as [F1 [F2 _]]; rewrite F1, F2; split; assumption. }
+  destruct (find_remove id (laters s)) as [[w l]|];
+    [destruct (notify_fields bug uenv (set_laters s l) w) as [F1 [F2 _]]; rewrite F1, F2; split; assumption|].
   destruct (find_remove id (run_laters s)) as [[w l]|] eqn:E5.
-  { destruct (find_remove_forall P _ _ _ _ E5 Hl) as [_ Hl']. unfold notify_unbind; destruct (w_unbind w); split; assumption. }
-  destruct (find_remove id (sigs s)) as [[w l]|]; [unfold notify_unbind; destruct (w_unbind w); split; assumption|].
-  destruct (find_remove id (procs s)) as [[w l]|]; [unfold notify_unbind; destruct (w_unbind w); split; assumption|].
+  { destruct (find_remove_forall P _ _ _ _ E5 Hl) as [_ Hl'].
+    destruct (notify_fields bug uenv (set_run_laters s l) w) as [F1 [F2 _]]; rewrite F1, F2; split; assumption. }
+  destruct (find_remove id (sigs s)) as [[w l]|];
+    [destruct (notify_fields bug uenv (set_sigs s l) w) as [F1 [F2 _]]; rewrite F1, F2; split; assumption|].
+  destruct (find_remove id (procs s)) as [[w l]|];
+    [destruct (notify_fields bug uenv (set_procs s l) w) as [F1 [F2 _]]; rewrite F1, F2; split; assumption|].
   split; assumption.
 Qed.
 
 Lemma action_run_sub : forall (P : watch -> Prop) s a,
   Forall P (run_timers s) -> Forall P (run_laters s) ->
-  Forall P (run_timers (do_action bug s a)) /\ Forall P (run_laters (do_action bug s a)).
+  Forall P (run_timers (do_action bug uenv s a)) /\ Forall P (run_laters (do_action bug uenv s a)).
 Proof.
   intros P s a Ht Hl. destruct a as [d fl cb|fl cb|k x fl cb|id|]; cbn [do_action]; try (split; assumption).
-  - destruct k; split; assumption.
+  - destruct (reg_fields bug s (AWatch k x fl cb)) as [A1 [A2 _]]. rewrite A1, A2. split; assumption.
   - apply cancel_run_sub; assumption.
 Qed.
 
 Lemma actions_run_sub : forall (P : watch -> Prop) l s,
   Forall P (run_timers s) -> Forall P (run_laters s) ->
-  Forall P (run_timers (do_actions bug s l)) /\ Forall P (run_laters (do_actions bug s l)).
+  Forall P (run_timers (do_actions bug uenv s l)) /\ Forall P (run_laters (do_actions bug uenv s l)).
 Proof.
   intros P. induction l as [|a l IH]; intros s Ht Hl; [split; assumption|].
   unfold do_actions in *. cbn [fold_left]. destruct (action_run_sub P s a Ht Hl) as [H1 H2]. apply IH; assumption.
@@ -514,8 +549,8 @@ Proof. intros N e H Hb. unfold nofire in H. congruence. Qed.
 
 Lemma ext_run_timers_loop : forall N n s,
   Forall (fun w => w_id w < N) (run_timers s) -> Forall (fun w => w_id w < N) (run_laters s) ->
-  ext (fire_below N) s (run_timers_loop bug env n s) /\
-  Forall (fun w => w_id w < N) (run_laters (run_timers_loop bug env n s)).
+  ext (fire_below N) s (run_timers_loop bug env uenv n s) /\
+  Forall (fun w => w_id w < N) (run_laters (run_timers_loop bug env uenv n s)).
 Proof.
   intros N. induction n as [|n IH]; intros s Ht Hl; [split; [apply ext_refl|exact Hl]|].
   cbn [run_timers_loop]. destruct (run_timers s) as [|w r] eqn:Er; [split; [apply ext_refl|exact Hl]|].
@@ -533,7 +568,7 @@ Qed.
 
 Lemma ext_run_laters_loop : forall N n s,
   Forall (fun w => w_id w < N) (run_timers s) -> Forall (fun w => w_id w < N) (run_laters s) ->
-  ext (fire_below N) s (run_laters_loop bug env n s).
+  ext (fire_below N) s (run_laters_loop bug env uenv n s).
 Proof.
   intros N. induction n as [|n IH]; intros s Ht Hl; [apply ext_refl|].
   cbn [run_laters_loop]. destruct (run_laters s) as [|w r] eqn:Er; [apply ext_refl|].
@@ -551,37 +586,9 @@ Qed.
 Lemma Below_weaken_list : forall n m l, n <= m -> Forall (fun w => w_id w < n) l -> Forall (fun w : watch => w_id w < m) l.
 Proof. intros n m l H HF. eapply Forall_impl; [|exact HF]. cbn. intros; lia. Qed.
 
-Lemma Below_cancel : forall s id, Below s -> Below (watch_cancel s id) /\ next_id (watch_cancel s id) = next_id s.
+Lemma Below_reg : forall s a, Below s -> Below (do_reg bug s a) /\ next_id s <= next_id (do_reg bug s a).
 Proof.
-  intros s id H. unfold Below, all_lists, watch_cancel in *.
-  rewrite !Forall_app_iff in H. destruct H as [Ht [Hrt [Hl [Hrl [Hi [Hs Hp]]]]]].
-  destruct (find_remove id (ios s)) as [[w l]|] eqn:E1.
-  { destruct (find_remove_forall _ _ _ _ _ E1 Hi) as [_ Hl']. unfold notify_unbind; destruct (w_unbind w);
-      (split; [cbn; rewrite !Forall_app_iff; auto 10|reflexivity]). }
-  destruct (find_remove id (timers s)) as [[w l]|] eqn:E2.
-  { destruct (find_remove_forall _ _ _ _ _ E2 Ht) as [_ Hl']. unfold notify_unbind; destruct (w_unbind w);
-      (split; [cbn; rewrite !Forall_app_iff; auto 10|reflexivity]). }
-  destruct (find_remove id (run_timers s)) as [[w l]|] eqn:E3.
-  { destruct (find_remove_forall _ _ _ _ _ E3 Hrt) as [_ Hl']. unfold notify_unbind; destruct (w_unbind w);
-      (split; [cbn; rewrite !Forall_app_iff; auto 10|reflexivity]). }
-  destruct (find_remove id (laters s)) as [[w l]|] eqn:E4.
-  { destruct (find_remove_forall _ _ _ _ _ E4 Hl) as [_ Hl']. unfold notify_unbind; destruct (w_unbind w);
-      (split; [cbn; rewrite !Forall_app_iff; auto 10|reflexivity]). }
-  destruct (find_remove id (run_laters s)) as [[w l]|] eqn:E5.
-  { destruct (find_remove_forall _ _ _ _ _ E5 Hrl) as [_ Hl']. unfold notify_unbind; destruct (w_unbind w);
-      (split; [cbn; rewrite !Forall_app_iff; auto 10|reflexivity]). }
-  destruct (find_remove id (sigs s)) as [[w l]|] eqn:E6.
-  { destruct (find_remove_forall _ _ _ _ _ E6 Hs) as [_ Hl']. unfold notify_unbind; destruct (w_unbind w);
-      (split; [cbn; rewrite !Forall_app_iff; auto 10|reflexivity]). }
-  destruct (find_remove id (procs s)) as [[w l]|] eqn:E7.
-  { destruct (find_remove_forall _ _ _ _ _ E7 Hp) as [_ Hl']. unfold notify_unbind; destruct (w_unbind w);
-      (split; [cbn; rewrite !Forall_app_iff; auto 10|reflexivity]). }
-  split; [rewrite !Forall_app_iff; auto 10|reflexivity].
-Qed.
-
-Lemma Below_action : forall s a, Below s -> Below (do_action bug s a) /\ next_id s <= next_id (do_action bug s a).
-Proof.
-  intros s a H. destruct a as [d fl cb|fl cb|k x fl cb|id|]; cbn [do_action].
+  intros s a H. destruct a as [d fl cb|fl cb|k x fl cb|id|]; cbn [do_reg].
   - unfold Below, all_lists in *. cbn [timers run_timers laters run_laters ios sigs procs next_id set_next set_timers].
     rewrite !Forall_app_iff in *. destruct H as [Ht [Hrt [Hl [Hrl [Hi [Hs Hp]]]]]].
     split; [|lia]. repeat split; try (eapply Below_weaken_list; [|eassumption]; lia).
@@ -596,18 +603,72 @@ Proof.
       rewrite !Forall_app_iff in *; destruct H as [Ht [Hrt [Hl [Hrl [Hi [Hs Hp]]]]]];
       (split; [|lia]); repeat split; try (eapply Below_weaken_list; [|eassumption]; lia);
       (apply insert_watch_forall; [eapply Below_weaken_list; [|eassumption]; lia|cbn; lia]).
-  - destruct (Below_cancel s id H) as [H1 H2]. split; [exact H1|lia].
+  - split; [exact H|lia].
   - split; [exact H|lia].
 Qed.
 
-Lemma Below_actions : forall l s, Below s -> Below (do_actions bug s l) /\ next_id s <= next_id (do_actions bug s l).
+Lemma Below_regs : forall l s, Below s -> Below (do_regs bug s l) /\ next_id s <= next_id (do_regs bug s l).
+Proof.
+  induction l as [|a l IH]; intros s H; [split; [exact H|cbn; lia]|].
+  unfold do_regs in *. cbn [fold_left]. destruct (Below_reg s a H) as [H1 H2].
+  destruct (IH _ H1) as [H3 H4]. split; [exact H3|lia].
+Qed.
+
+Lemma Below_notify : forall s w, Below s ->
+  Below (notify_unbind bug uenv s w) /\ next_id s <= next_id (notify_unbind bug uenv s w).
+Proof.
+  intros s w H. unfold notify_unbind. destruct (w_unbind w); [|split; [exact H|lia]].
+  apply (Below_regs (uenv (w_cb w)) (emit s w EV_UNBIND)). exact H.
+Qed.
+
+Lemma Below_cancel : forall s id, Below s ->
+  Below (watch_cancel bug uenv s id) /\ next_id s <= next_id (watch_cancel bug uenv s id).
+Proof.
+  intros s id H. unfold watch_cancel.
+  assert (HB := H). unfold Below, all_lists in H.
+  rewrite !Forall_app_iff in H. destruct H as [Ht [Hrt [Hl [Hrl [Hi [Hs Hp]]]]]].
+  destruct (find_remove id (ios s)) as [[w l]|] eqn:E1.
+  { destruct (find_remove_forall _ _ _ _ _ E1 Hi) as [_ Hl']. apply (Below_notify (set_ios s l) w).
+    unfold Below, all_lists. cbn. rewrite !Forall_app_iff. auto 10. }
+  destruct (find_remove id (timers s)) as [[w l]|] eqn:E2.
+  { destruct (find_remove_forall _ _ _ _ _ E2 Ht) as [_ Hl']. apply (Below_notify (set_timers s l) w).
+    unfold Below, all_lists. cbn. rewrite !Forall_app_iff. auto 10. }
+  destruct (find_remove id (run_timers s)) as [[w l]|] eqn:E3.
+  { destruct (find_remove_forall _ _ _ _ _ E3 Hrt) as [_ Hl']. apply (Below_notify (set_run_timers s l) w).
+    unfold Below, all_lists. cbn. rewrite !Forall_app_iff. auto 10. }
+  destruct (find_remove id (laters s)) as [[w l]|] eqn:E4.
+  { destruct (find_remove_forall _ _ _ _ _ E4 Hl) as [_ Hl']. apply (Below_notify (set_laters s l) w).
+    unfold Below, all_lists. cbn. rewrite !Forall_app_iff. auto 10. }
+  destruct (find_remove id (run_laters s)) as [[w l]|] eqn:E5.
+  { destruct (find_remove_forall _ _ _ _ _ E5 Hrl) as [_ Hl']. apply (Below_notify (set_run_laters s l) w).
+    unfold Below, all_lists. cbn. rewrite !Forall_app_iff. auto 10. }
+  destruct (find_remove id (sigs s)) as [[w l]|] eqn:E6.
+  { destruct (find_remove_forall _ _ _ _ _ E6 Hs) as [_ Hl']. apply (Below_notify (set_sigs s l) w).
+    unfold Below, all_lists. cbn. rewrite !Forall_app_iff. auto 10. }
+  destruct (find_remove id (procs s)) as [[w l]|] eqn:E7.
+  { destruct (find_remove_forall _ _ _ _ _ E7 Hp) as [_ Hl']. apply (Below_notify (set_procs s l) w).
+    unfold Below, all_lists. cbn. rewrite !Forall_app_iff. auto 10. }
+  split; [exact HB|lia].
+Qed.
+
+Lemma Below_action : forall s a, Below s -> Below (do_action bug uenv s a) /\ next_id s <= next_id (do_action bug uenv s a).
+Proof.
+  intros s a H. destruct a as [d fl cb|fl cb|k x fl cb|id|];
+    try (change (Below (do_reg bug s (ATimer d fl cb)) /\ next_id s <= next_id (do_reg bug s (ATimer d fl cb))) ||
+         change (Below (do_reg bug s (ALater fl cb)) /\ next_id s <= next_id (do_reg bug s (ALater fl cb))) ||
+         change (Below (do_reg bug s (AWatch k x fl cb)) /\ next_id s <= next_id (do_reg bug s (AWatch k x fl cb))) ||
+         change (Below (do_reg bug s ANop) /\ next_id s <= next_id (do_reg bug s ANop)); apply Below_reg; exact H).
+  apply Below_cancel. exact H.
+Qed.
+
+Lemma Below_actions : forall l s, Below s -> Below (do_actions bug uenv s l) /\ next_id s <= next_id (do_actions bug uenv s l).
 Proof.
   induction l as [|a l IH]; intros s H; [split; [exact H|cbn; lia]|].
   unfold do_actions in *. cbn [fold_left]. destruct (Below_action s a H) as [H1 H2].
   destruct (IH _ H1) as [H3 H4]. split; [exact H3|lia].
 Qed.
 
-Lemma Below_run_timers_loop : forall n s, Below s -> Below (run_timers_loop bug env n s).
+Lemma Below_run_timers_loop : forall n s, Below s -> Below (run_timers_loop bug env uenv n s).
 Proof.
   induction n as [|n IH]; intros s H; [exact H|].
   cbn [run_timers_loop]. destruct (run_timers s) as [|w r] eqn:Er; [exact H|].
@@ -618,7 +679,7 @@ Proof.
   inversion Hrt; subst. auto 10.
 Qed.
 
-Lemma Below_run_laters_loop : forall n s, Below s -> Below (run_laters_loop bug env n s).
+Lemma Below_run_laters_loop : forall n s, Below s -> Below (run_laters_loop bug env uenv n s).
 Proof.
   induction n as [|n IH]; intros s H; [exact H|].
   cbn [run_laters_loop]. destruct (run_laters s) as [|w r] eqn:Er; [exact H|].
@@ -630,9 +691,9 @@ Proof.
 Qed.
 
 Lemma invoke_timers_split : forall s, run_timers s = [] -> run_laters s = [] -> Below s ->
-  exists s2, invoke_timers bug env s =
-             run_laters_loop bug env (length (run_laters (run_timers_loop bug env (length (run_timers s2)) s2)))
-                             (run_timers_loop bug env (length (run_timers s2)) s2) /\
+  exists s2, invoke_timers bug env uenv s =
+             run_laters_loop bug env uenv (length (run_laters (run_timers_loop bug env uenv (length (run_timers s2)) s2)))
+                             (run_timers_loop bug env uenv (length (run_timers s2)) s2) /\
              Below s2 /\ next_id s2 = next_id s /\ log s2 = log s.
 Proof.
   intros s Hrt Hrl H. unfold invoke_timers.
@@ -651,13 +712,13 @@ Proof.
 Qed.
 
 Lemma run_timers_loop_empties : forall n s, (length (run_timers s) <= n)%nat ->
-  run_timers (run_timers_loop bug env n s) = [].
+  run_timers (run_timers_loop bug env uenv n s) = [].
 Proof.
   induction n as [|n IH]; intros s Hn.
   - cbn [run_timers_loop]. destruct (run_timers s); [reflexivity|cbn in Hn; lia].
   - cbn [run_timers_loop]. destruct (run_timers s) as [|w r] eqn:Er; [exact Er|].
     apply IH.
-    destruct (actions_run_len bug (env (w_cb w)) (emit (set_run_timers s r) w (EV_FIRE + EV_UNBIND))) as [L1 _].
+    destruct (actions_run_len bug uenv (env (w_cb w)) (emit (set_run_timers s r) w (EV_FIRE + EV_UNBIND))) as [L1 _].
     cbn [run_timers emit set_log set_run_timers] in L1. cbn in Hn.
     eapply Nat.le_trans; [exact L1|]. apply le_S_n. exact Hn.
 Qed.
@@ -666,7 +727,7 @@ Qed.
    iteration began -- so a watch registered from inside a callback, whatever its deadline,
    is not run by the iteration that is in progress *)
 Theorem iteration_fires_old : forall sleep dt s, Quiet s -> Below s ->
-  exists nw, log (tick bug env sleep dt s) = nw ++ log s /\
+  exists nw, log (tick bug env uenv sleep dt s) = nw ++ log s /\
              forall e, In (OEv e) nw -> Z.testbit (e_flags e) 0 = true -> e_id e < next_id s.
 Proof.
   intros sleep dt s [HI [Hrt Hrl]] HB. unfold tick.
@@ -684,7 +745,7 @@ Proof.
     rewrite N4, N3 in Hr, Hr2. split; assumption. }
   destruct F4 as [F4a F4b].
   destruct (ext_run_timers_loop (next_id s) (length (run_timers s4)) s4 F4a F4b) as [E5 F5].
-  set (s5 := run_timers_loop bug env (length (run_timers s4)) s4) in *.
+  set (s5 := run_timers_loop bug env uenv (length (run_timers s4)) s4) in *.
   assert (F5t : Forall (fun w => w_id w < next_id s) (run_timers s5)).
   { unfold s5. rewrite run_timers_loop_empties by apply le_n. constructor. }
   pose proof (ext_run_laters_loop (next_id s) (length (run_laters s5)) s5 F5t F5) as E6.
@@ -699,8 +760,9 @@ End Iteration.
 Section Reach.
 Variable bug : bool.
 Variable env : Z -> list action.
+Variable uenv : Z -> list action.
 
-Lemma Below_tick : forall sleep dt s, run_timers s = [] -> run_laters s = [] -> Below s -> Below (tick bug env sleep dt s).
+Lemma Below_tick : forall sleep dt s, run_timers s = [] -> run_laters s = [] -> Below s -> Below (tick bug env uenv sleep dt s).
 Proof.
   intros sleep dt s Hrt Hrl HB. unfold tick.
   set (s1 := set_iter (set_now s (now s + dt)) (iter s + 1)).
@@ -710,17 +772,17 @@ Proof.
   assert (H3 : run_timers s3 = [] /\ run_laters s3 = [] /\ Below s3).
   { unfold s3. destruct (sleep && (0 <? msec)); repeat split; assumption. }
   destruct H3 as [R1 [R2 B3]].
-  destruct (invoke_timers_split bug env s3 R1 R2 B3) as [s4 [Einv [B4 _]]].
+  destruct (invoke_timers_split bug env uenv s3 R1 R2 B3) as [s4 [Einv [B4 _]]].
   rewrite Einv. apply Below_run_laters_loop. apply Below_run_timers_loop. exact B4.
 Qed.
 
 Lemma Below_st0 : Below st0.
 Proof. unfold Below, all_lists. cbn. constructor. Qed.
 
-Lemma reach : forall ops, Quiet (run_ops bug env ops) /\ Below (run_ops bug env ops).
+Lemma reach : forall ops, Quiet (run_ops bug env uenv ops) /\ Below (run_ops bug env uenv ops).
 Proof.
   intros ops. unfold run_ops.
-  assert (G : forall ops s, Quiet s /\ Below s -> Quiet (fold_left (do_op bug env) ops s) /\ Below (fold_left (do_op bug env) ops s)).
+  assert (G : forall ops s, Quiet s /\ Below s -> Quiet (fold_left (do_op bug env uenv) ops s) /\ Below (fold_left (do_op bug env uenv) ops s)).
   { induction ops0 as [|o r IH]; intros s Q; [exact Q|].
     cbn [fold_left]. apply IH. destruct Q as [Q B]. destruct o as [a|dt|]; cbn [do_op].
     - split; [apply Quiet_action; exact Q|apply Below_action; exact B].
@@ -731,8 +793,8 @@ Qed.
 
 (* for every history: what the next iteration invokes was registered before it began *)
 Theorem later_iteration : forall ops sleep dt,
-  exists nw, log (tick bug env sleep dt (run_ops bug env ops)) = nw ++ log (run_ops bug env ops) /\
-             forall e, In (OEv e) nw -> Z.testbit (e_flags e) 0 = true -> e_id e < next_id (run_ops bug env ops).
+  exists nw, log (tick bug env uenv sleep dt (run_ops bug env uenv ops)) = nw ++ log (run_ops bug env uenv ops) /\
+             forall e, In (OEv e) nw -> Z.testbit (e_flags e) 0 = true -> e_id e < next_id (run_ops bug env uenv ops).
 Proof.
   intros ops sleep dt. destruct (reach ops) as [Q B]. apply iteration_fires_old; assumption.
 Qed.
@@ -790,14 +852,14 @@ Definition w22b_env (cb : Z) : list action := if cb =? 1 then [ATimer (-10) F0 0
 Definition w22b_ops : list op := [OAct (ATimer 0 F0 1); ORun 0; ORun 0].
 Lemma pinned_drops_timer :
   a_run true w22b_env 100 w22b_ops = Some [OPoll 0; OEv (mkE 0 KTimer 3 1 0 0); OPoll 0] /\
-  spec_run w22b_env w22b_ops = [OPoll 0; OEv (mkE 0 KTimer 3 1 0 0); OPoll 0; OEv (mkE 1 KTimer 3 2 0 (-10))].
+  spec_run w22b_env no_uenv w22b_ops = [OPoll 0; OEv (mkE 0 KTimer 3 1 0 0); OPoll 0; OEv (mkE 1 KTimer 3 2 0 (-10))].
 Proof. split; vm_compute; reflexivity. Qed.
 
 (* #22c: a timer due now, registered from a callback, runs in the SAME iteration *)
 Definition w22c_env (cb : Z) : list action := if cb =? 1 then [ATimer 0 F0 0] else [].
 Lemma pinned_same_iteration :
   a_run true w22c_env 100 w22b_ops = Some [OPoll 0; OEv (mkE 0 KTimer 3 1 0 0); OEv (mkE 1 KTimer 3 1 0 0); OPoll 0] /\
-  spec_run w22c_env w22b_ops = [OPoll 0; OEv (mkE 0 KTimer 3 1 0 0); OPoll 0; OEv (mkE 1 KTimer 3 2 0 0)].
+  spec_run w22c_env no_uenv w22b_ops = [OPoll 0; OEv (mkE 0 KTimer 3 1 0 0); OPoll 0; OEv (mkE 1 KTimer 3 2 0 0)].
 Proof. split; vm_compute; reflexivity. Qed.
 
 (* #22d: a deferred callback cancelled from a timer callback of the same iteration still runs
@@ -806,21 +868,29 @@ Definition w22d_env (cb : Z) : list action := if cb =? 1 then [ACancel 1] else [
 Definition w22d_ops : list op := [OAct (ATimer 0 F0 1); OAct (ALater FU 0); ORun 0; ORun 0].
 Lemma pinned_uncancellable_later :
   a_run true w22d_env 100 w22d_ops = Some [OPoll 0; OEv (mkE 0 KTimer 3 1 0 0); OEv (mkE 1 KLater 3 1 0 0); OPoll 0] /\
-  spec_run w22d_env w22d_ops = [OPoll 0; OEv (mkE 0 KTimer 3 1 0 0); OEv (mkE 1 KLater 2 1 0 0); OPoll 0].
+  spec_run w22d_env no_uenv w22d_ops = [OPoll 0; OEv (mkE 0 KTimer 3 1 0 0); OEv (mkE 1 KLater 2 1 0 0); OPoll 0].
 Proof. split; vm_compute; reflexivity. Qed.
 
 (* #23: tickit_watch_io masks with UNBIND|UNBIND: no destroy notification for an IO watch *)
 Definition w23_ops : list op := [OAct (AWatch KIo 0 FD 0)].
 Lemma pinned_io_no_destroy :
-  run true (fun _ => []) w23_ops = [] /\
-  spec_run (fun _ => []) w23_ops = [OEv (mkE 0 KIo 6 (-1) 0 0)] /\
-  run false (fun _ => []) w23_ops = [OEv (mkE 0 KIo 6 (-1) 0 0)].
+  run true (fun _ => []) no_uenv w23_ops = [] /\
+  spec_run (fun _ => []) no_uenv w23_ops = [OEv (mkE 0 KIo 6 (-1) 0 0)] /\
+  run false (fun _ => []) no_uenv w23_ops = [OEv (mkE 0 KIo 6 (-1) 0 0)].
 Proof. repeat split; vm_compute; reflexivity. Qed.
 
 (* the repaired model on the four scripts agrees with the specification *)
+(* a cancel whose UNBIND notification registers a replacement that sorts before the cancelled
+   timer: the replacement runs (the seeded re-entrancy bug unlinks it together with the
+   cancelled one) *)
+Definition wub_uenv (cb : Z) : list action := if cb =? 1 then [ATimer (-500) F0 0] else [].
+Definition wub_ops : list op := [OAct (ATimer 2000 FU 1); OAct (ACancel 0); ORun 0].
+
 Lemma fixed_on_witnesses :
-  run false w22a_env w22a_ops = spec_run w22a_env w22a_ops /\
-  run false w22b_env w22b_ops = spec_run w22b_env w22b_ops /\
-  run false w22c_env w22b_ops = spec_run w22c_env w22b_ops /\
-  run false w22d_env w22d_ops = spec_run w22d_env w22d_ops.
+  run false (fun _ => []) wub_uenv wub_ops =
+    [OEv (mkE 0 KTimer 2 0 0 2000); OPoll 0; OEv (mkE 1 KTimer 3 1 0 (-500))] /\
+  run false w22a_env no_uenv w22a_ops = spec_run w22a_env no_uenv w22a_ops /\
+  run false w22b_env no_uenv w22b_ops = spec_run w22b_env no_uenv w22b_ops /\
+  run false w22c_env no_uenv w22b_ops = spec_run w22c_env no_uenv w22b_ops /\
+  run false w22d_env no_uenv w22d_ops = spec_run w22d_env no_uenv w22d_ops.
 Proof. repeat split; vm_compute; reflexivity. Qed.
